@@ -23,6 +23,11 @@ import (
 func init() {
 	cf := "internal/backends/compiler_wat/compile_func.go"
 	register(&Property{ID: "C16", Run: runC16, Mutants: []Mutant{
+		{Name: "signature key loses the separator between parameters and results", File: "internal/backends/compiler_wat/wir/value_closure.go", Old: "\tn += \"$$\"\n", New: "", Expect: "signature-key-separated"},
+		{Name: "Convert sanity check reads the operand type without Underlying()", File: "internal/ssa/sanity.go", Old: "if _, ok := instr.X.Type().Underlying().(*types.Basic); !ok {", New: "if _, ok := instr.X.Type().(*types.Basic); !ok {", Expect: "sanity-convert-symmetric"},
+		{Name: "array values lose their comparison override", File: "internal/backends/compiler_wat/wir/value_array.go", Old: "func (v *aArray) emitCompare(r Value) (insts []wat.Inst) {\n\tif !v.Type().Equal(r.Type()) {\n\t\tlogger.Fatal(\"v.Type() != r.Type()\")\n\t}\n\treturn v.aStruct.emitCompare(&r.(*aArray).aStruct)\n}\n", New: "", Expect: "embedded-peer-method-overridden :: aArray.emitCompare"},
+		{Name: "map iterator compiles the slot types of the Next tuple", File: cf, Old: "\t\treturn g.module.EmitGenNext_Map(iter, g.tLib.compile(kt), g.tLib.compile(vt))", New: "\t\t_, _ = kt, vt\n\t\treturn g.module.EmitGenNext_Map(iter, g.tLib.compile(t.At(1).Type()), g.tLib.compile(t.At(2).Type()))", Expect: "next-unused-slot-types"},
+		{Name: "statically called function literal generated at every call site", File: cf, Old: "\t\tcallee := call.StaticCallee()\n\t\tif callee.Parent() != nil {\n\t\t\t// an anonymous function is generated once, however many call sites it has\n\t\t\tif name, _ := wir.GetFnMangleName(callee, g.prog.Manifest.MainPkg); g.module.FindFunc(name) == nil {\n\t\t\t\tg.module.AddFunc(newFunctionGenerator(g.prog, g.module, g.tLib).genFunction(callee))\n\t\t\t}\n\t\t}", New: "\t\tcallee := call.StaticCallee()\n\t\tif callee.Parent() != nil {\n\t\t\tg.module.AddFunc(newFunctionGenerator(g.prog, g.module, g.tLib).genFunction(callee))\n\t\t}", Expect: "anonymous-callee-generated-once"},
 		{Name: "a block that jumps to itself leaves through a label that is not in scope", File: "internal/backends/compiler_wat/compile_func.go", Old: "\tif cur >= dest {\n\t\tinsts = g.module.EmitAssginValue(g.var_block_selector", New: "\tif cur > dest {\n\t\tinsts = g.module.EmitAssginValue(g.var_block_selector", Expect: "jump-direction"},
 		{Name: "complex64 division calls the complex128 helper", File: "internal/backends/compiler_wat/wir/value_complex64.go", Old: "wat.NewInstCall(\"$wa.runtime.complex64_Div\")", New: "wat.NewInstCall(\"$wa.runtime.complex128_Div\")", Expect: "complex-helper-width"},
 		{Name: "rune/i32 assignment accepted in one direction only", File: "internal/backends/compiler_wat/wir/instruction_emitter.go", Old: "!(lh.Type().Equal(m.I32) && rh.Type().Equal(m.RUNE) || lh.Type().Equal(m.RUNE) && rh.Type().Equal(m.I32))", New: "!(lh.Type().Equal(m.RUNE) && rh.Type().Equal(m.I32))", Expect: "assign-compat-symmetric"},
@@ -66,6 +71,7 @@ func runC16(c *Ctx) {
 	if wp := p.MustPkg("assign-compat-symmetric", "internal/backends/compiler_wat/wir"); wp != nil {
 		c16AssignCompat(c, p, wp)
 		c16ComplexHelperWidth(c, p, wp)
+		c16Round4(c, p, bk, wp, ssap)
 	}
 	c16Linkage(c, p, cfgp)
 	c16FatalInventory(c, p)
